@@ -74,7 +74,7 @@ pub struct Shared {
     /// tracker; read by the parked-write check)
     pub ack_progress: [Cell<u64>; 2],
     /// an address netstat can resolve, per endpoint [client, server]
-    pub netstat_ip: [IpAddr; 2],
+    pub netstat_ip: [Option<IpAddr>; 2],
     pub max_events: usize,
 }
 
@@ -103,7 +103,8 @@ fn ek(e: &std::io::Error) -> String {
 }
 
 /// Send-queue depth of the connection `(local, peer)` as netstat shows it.
-fn send_q(ip: IpAddr, local: SocketAddr, peer: SocketAddr) -> Option<usize> {
+fn send_q(ip: Option<IpAddr>, local: SocketAddr, peer: SocketAddr) -> Option<usize> {
+    let ip = ip?;
     let snap = turmoil_net::netstat(ip);
     snap.entries
         .iter()
@@ -157,7 +158,7 @@ pub async fn server_main(sh: Rc<Shared>, host: HostId, bind: SocketAddr) {
     drop(listener);
 }
 
-async fn writer(sh: Rc<Shared>, mut w: OwnedWriteHalf, dir: Dir, me: usize) {
+pub async fn writer(sh: Rc<Shared>, mut w: OwnedWriteHalf, dir: Dir, me: usize) {
     let spec = sh.specs[dir.idx()].clone();
     let key = stream_key(dir);
     let cap = sh.cfg.send_cap;
@@ -176,6 +177,9 @@ async fn writer(sh: Rc<Shared>, mut w: OwnedWriteHalf, dir: Dir, me: usize) {
     let mut off = 0usize;
     let mut i = 0usize;
     while off < spec.total {
+        if spec.write_pause > 0 && off > 0 {
+            wait_rounds(&sh.clock, spec.write_pause as u64).await;
+        }
         let want = spec.wchunks[i % spec.wchunks.len()].max(1).min(spec.total - off);
         i += 1;
         let data = keyed_bytes(key, off as u64, want);
@@ -285,6 +289,9 @@ async fn writer(sh: Rc<Shared>, mut w: OwnedWriteHalf, dir: Dir, me: usize) {
         off += k;
         sh.with(dir, |d| d.written += k as u64);
     }
+    if spec.write_pause > 0 {
+        wait_rounds(&sh.clock, spec.write_pause as u64).await;
+    }
     if spec.explicit_shutdown {
         match w.shutdown().await {
             Ok(()) => {
@@ -304,7 +311,7 @@ async fn writer(sh: Rc<Shared>, mut w: OwnedWriteHalf, dir: Dir, me: usize) {
     drop(w);
 }
 
-async fn reader(sh: Rc<Shared>, mut r: OwnedReadHalf, dir: Dir) {
+pub async fn reader(sh: Rc<Shared>, mut r: OwnedReadHalf, dir: Dir) {
     let spec = sh.specs[dir.idx()].clone();
     let key = stream_key(dir);
     let who = dir.as_str();
